@@ -3,6 +3,7 @@ package props
 import (
 	"fmt"
 	"sync"
+	"sync/atomic"
 	"time"
 
 	fpgo "github.com/TeaEntityLab/fpGo/v2"
@@ -73,7 +74,7 @@ func c11Cont(l *c11Log, j, pos int) func(int) *fpgo.MonadIODef[int] {
 		return func(x int) *fpgo.MonadIODef[int] {
 			m := fpgo.MonadIONewGenerics(func() int { l.add(id); return x + 7 })
 			if len(c11Inner) > 0 {
-				h := c11Inner[(pos+x)%len(c11Inner)]
+				h := c11Inner[((pos+x)%len(c11Inner)+len(c11Inner))%len(c11Inner)]
 				m = m.ObserveOn(h)
 				if pos%2 == 1 {
 					m = m.SubscribeOn(h)
@@ -666,6 +667,64 @@ func runC11(c *core.Ctx) {
 			c.Violationf("carried-value:generic", nil, "MonadIOJustGenerics(m).FlatMap(Just).Eval() returned %p (want %p), the carried MonadIO's effect ran %d times", got, in2, in2Runs)
 		}
 	}
+	// one MonadIO value evaluated by several goroutines at once, and two compositions sharing a first step: every
+	// evaluation is complete and independent (value, number of effects), nothing panics
+	for variant := 0; variant < 3; variant++ {
+		c.Eval(1)
+		c.DistinctAdd(1)
+		var effects atomic.Int64
+		first := fpgo.MonadIONewGenerics(func() int { effects.Add(1); time.Sleep(time.Millisecond); return 5 })
+		a := first.FlatMap(func(x int) *fpgo.MonadIODef[int] {
+			return fpgo.MonadIONewGenerics(func() int { effects.Add(1); time.Sleep(500 * time.Microsecond); return x * 2 })
+		})
+		b := first.FlatMap(func(x int) *fpgo.MonadIODef[int] { return fpgo.MonadIOJustGenerics(x + 100) })
+		const evaluators = 8
+		results := make([]int, evaluators)
+		panics := make([]any, evaluators)
+		var wg sync.WaitGroup
+		start := make(chan struct{})
+		for g := 0; g < evaluators; g++ {
+			wg.Add(1)
+			go func(g int) {
+				defer wg.Done()
+				<-start
+				panics[g], _ = core.Catch(func() {
+					switch {
+					case variant == 0 || g%2 == 0:
+						results[g] = a.Eval()
+					case variant == 1:
+						results[g] = b.Eval()
+					default:
+						done := make(chan int, 1)
+						b.Subscribe(fpgo.Subscription[int]{OnNext: func(v int) { done <- v }})
+						results[g] = <-done
+					}
+				})
+			}(g)
+		}
+		close(start)
+		wg.Wait()
+		wantEffects := int64(0)
+		for g := 0; g < evaluators; g++ {
+			want := 10
+			wantEffects += 2
+			if variant != 0 && g%2 == 1 {
+				want = 105
+				wantEffects--
+			}
+			if panics[g] != nil {
+				c.Violationf("concurrent-evaluations:panic:"+core.NormalizePanic(fmt.Sprint(panics[g])), map[string]any{"variant": variant}, "%d goroutines evaluate compositions that share their first step at the same time: evaluator %d panics: %v", evaluators, g, panics[g])
+				break
+			}
+			if results[g] != want {
+				c.Violationf("concurrent-evaluations:wrong-value", map[string]any{"variant": variant}, "concurrent evaluation %d returned %d, want %d", g, results[g], want)
+				break
+			}
+		}
+		if effects.Load() != wantEffects {
+			c.Violationf("concurrent-evaluations:effects", map[string]any{"variant": variant}, "%d concurrent evaluations ran %d effects, want %d", evaluators, effects.Load(), wantEffects)
+		}
+	}
 	c.Count("programs", int64(len(progs)))
 	c.Note("exhaustive_programs", fmt.Sprintf("all chains of depth <= %d over 3 leaves x %d continuation kinds", depth, c11NConts))
 	c.Sample(map[string]any{"program": progs[17].String(), "modes": "construct; Eval x3; Subscribe x2 under 4 handler combinations; nil OnNext; laws"})
@@ -680,10 +739,10 @@ func init() {
 		Meta: func(c *core.Ctx) core.Meta {
 			return core.Meta{
 				Level: "exploration",
-				Rule: "programs = Just/New leaves followed by a FlatMap chain of depth <= D (D=3 quick, 5 thorough; all chains enumerated) over 6 continuation kinds (pure Just, New with effect, nested FlatMap, continuation that logs when called, FlatMap(Just) tail, a monad pre-configured with its own ObserveOn/SubscribeOn on another / the chain's own / a closed handler) plus PRNG chains up to length 30; first of all a MonadIO observed on the package-level default Handler as the first library call of the process; each program: log empty after construction and after ObserveOn/SubscribeOn, Eval x3 and Subscribe x2 under all four nil/non-nil handler combinations each add exactly the expected effect sequence and deliver exactly one value, goroutine identity of effects and OnNext, nil OnNext runs nothing, handlers stay bound to a subscription when the MonadIO is re-configured while its effect is in flight, left/right identity and associativity by (value, effect log); carried values that are themselves MonadIOs / Maybes / nil (Just, New, FlatMap, Eval, Subscribe hand them on untouched and never run them); branching compositions (two children of one parent of depth 0..18 (thorough 40) x all 25 continuation pairs, each extended once more, evaluated twice in interleaved order); 5 Subscribes of one counting MonadIO whose deliveries are pending on a busy SubscribeOn handler (each must get the value of its own evaluation). " +
+				Rule: "programs = Just/New leaves followed by a FlatMap chain of depth <= D (D=3 quick, 5 thorough; all chains enumerated) over 6 continuation kinds (pure Just, New with effect, nested FlatMap, continuation that logs when called, FlatMap(Just) tail, a monad pre-configured with its own ObserveOn/SubscribeOn on another / the chain's own / a closed handler) plus PRNG chains up to length 30; first of all a MonadIO observed on the package-level default Handler as the first library call of the process; each program: log empty after construction and after ObserveOn/SubscribeOn, Eval x3 and Subscribe x2 under all four nil/non-nil handler combinations each add exactly the expected effect sequence and deliver exactly one value, goroutine identity of effects and OnNext, nil OnNext runs nothing, handlers stay bound to a subscription when the MonadIO is re-configured while its effect is in flight, left/right identity and associativity by (value, effect log); carried values that are themselves MonadIOs / Maybes / nil (Just, New, FlatMap, Eval, Subscribe hand them on untouched and never run them); 8 goroutines evaluating one composition (or two compositions sharing their first step) at the same time; branching compositions (two children of one parent of depth 0..18 (thorough 40) x all 25 continuation pairs, each extended once more, evaluated twice in interleaved order); 5 Subscribes of one counting MonadIO whose deliveries are pending on a busy SubscribeOn handler (each must get the value of its own evaluation). " +
 					"distinct_nontrivial = enumerated (program, mode) cases whose expected effect log is non-empty",
 				Assumptions: []string{"observe and subscribe handlers are two distinct handlers (posting to an unbuffered handler from its own goroutine blocks by construction)",
-					"with ObserveOn only, OnNext runs on the observe handler's goroutine", "sequential driver: the property quantifies over compositions, not schedules"},
+					"with ObserveOn only, OnNext runs on the observe handler's goroutine", "mostly sequential driver (the property quantifies over compositions); overlapping evaluations only in the dedicated probe"},
 				Exhaustive: true,
 			}
 		},
